@@ -687,6 +687,7 @@ pub fn generate_with(prop: &str, o: &GenOpts, base_seed: u64, index: u64) -> Run
             }
         },
         hint_short: 0,
+        hint_long: 0,
         sim,
     };
     // a source that yields more than its exact size hint announced (refilled after creation, or
@@ -699,7 +700,13 @@ pub fn generate_with(prop: &str, o: &GenOpts, base_seed: u64, index: u64) -> Run
         && len >= 2
         && rng.chance(o.short_hint_pct, 100)
     {
-        cfg.hint_short = rng.range(1, len - 1);
+        if rng.chance(60, 100) {
+            cfg.hint_short = rng.range(1, len - 1);
+        } else {
+            // ... or fewer than announced (somebody else drained the queue)
+            // (far more than the pulls past the end can make up for, in most cases)
+            cfg.hint_long = *rng.pick(&[1usize, 2, 40, 100, 1000]);
+        }
     }
     cfg
 }
@@ -877,6 +884,7 @@ pub fn generate_c16(base_seed: u64, index: u64, schedules_per_point: u64) -> Run
         consume_nth: ((index / 7) % 3) as usize % 2,
         tail: 0,
         hint_short: 0,
+        hint_long: 0,
         finish: ((index / 11) % 3) as u8,
         sim,
     }
